@@ -22,11 +22,23 @@ type C07Case struct {
 	Acls []*ref.Acl `json:"acls,omitempty"`
 	Prog []ref.Stmt `json:"prog"`
 	Src  string     `json:"src"`
+	// HdrObj: the HTTP object the pooled headers live on ("" = req). The program text is generated
+	// with req.http.* and rewritten before it runs; the scope follows the object.
+	HdrObj string `json:"hdrobj,omitempty"`
+}
+
+var c07ObjScope = map[string]string{"": "recv", "req": "recv", "bereq": "miss", "beresp": "fetch", "obj": "error", "resp": "deliver"}
+
+func (c C07Case) onObj(text string) string {
+	if c.HdrObj == "" || c.HdrObj == "req" {
+		return text
+	}
+	return strings.ReplaceAll(text, "req.http.H", c.HdrObj+".http.H")
 }
 
 func init() {
 	register("C07",
-		"type-directed core-language programs (pool of INTEGER/FLOAT/STRING/BOOL/RTIME/IP locals and req headers; every assignment operator legal for the type; comparison, logical, regex and ACL-match conditions; concatenation; if/else-if/else; switch with regex cases, fallthrough, default; not-set operands) plus ACLs of up to 8 IPv4/IPv6 entries with masks/negations and probe addresses inside/on the boundary/outside; oracle: a reference evaluator written from the Fastly documentation predicts every log line (branch trace) and the final value and set/not-set state of every pooled name; falco runs the rendered program in RECV scope. non-trivial: >=1 value-dependent compound assignment or comparison and >=1 branch, or an ACL probe against an ACL with >=2 entries; distinct by program",
+		"type-directed core-language programs (pool of INTEGER/FLOAT/STRING/BOOL/RTIME/IP locals and headers on req (RECV), bereq (MISS), beresp (FETCH), obj (ERROR) or resp (DELIVER); mixed-type numeric assignments; every assignment operator legal for the type; comparison, logical, regex and ACL-match conditions; concatenation; if/else-if/else; switch with regex cases, fallthrough, default; not-set operands) plus ACLs of up to 8 IPv4/IPv6 entries with masks/negations and probe addresses inside/on the boundary/outside; oracle: a reference evaluator written from the Fastly documentation predicts every log line (branch trace) and the final value and set/not-set state of every pooled name; falco runs the rendered program in the scope of the header object. non-trivial: >=1 value-dependent compound assignment or comparison and >=1 branch, or an ACL probe against an ACL with >=2 entries; distinct by program",
 		genC07, checkC07, 10*time.Second)
 }
 
@@ -38,7 +50,8 @@ func genC07(t *rapid.T) any {
 		maxStmts = 3
 	}
 	prog := g.program(maxStmts)
-	return C07Case{Acls: g.acls, Prog: prog, Src: "{\n" + ref.RenderStmts(prog, "  ") + "}\n"}
+	obj := rapid.SampledFrom([]string{"", "", "", "resp", "beresp", "obj", "bereq"}).Draw(t, "hdrobj")
+	return C07Case{Acls: g.acls, Prog: prog, Src: "{\n" + ref.RenderStmts(prog, "  ") + "}\n", HdrObj: obj}
 }
 
 func coreVCL(acls []*ref.Acl) string {
@@ -118,12 +131,16 @@ type coreRun struct {
 }
 
 // runCore executes a rendered core program at the top level of a fresh interpreter in RECV scope.
-func runCore(acls []*ref.Acl, src string) coreRun {
+func runCore(acls []*ref.Acl, src string, scope ...string) coreRun {
 	ip, dbg, err := newTestInterp(coreVCL(acls))
 	if err != nil {
 		return coreRun{init: err}
 	}
-	ip.SetScope(scopeByName["recv"])
+	sc := "recv"
+	if len(scope) > 0 && scope[0] != "" {
+		sc = scope[0]
+	}
+	ip.SetScope(scopeByName[sc])
 	ss, err := parseSnippet(src)
 	if err != nil {
 		return coreRun{init: fmt.Errorf("harness: generated program does not parse: %v\n%s", err, src)}
@@ -151,7 +168,9 @@ func checkC07(raw json.RawMessage) iso.Result {
 		col.Label("ref-aborted:" + strings.SplitN(env.Why, " ", 3)[0])
 	}
 
-	r := runCore(c.Acls, c.Src)
+	c.Src = c.onObj(c.Src)
+	col.Label("headers-on:" + c07ObjScope[c.HdrObj])
+	r := runCore(c.Acls, c.Src, c07ObjScope[c.HdrObj])
 	if r.init != nil {
 		col.Failf("%v", r.init)
 		return col.Done()
@@ -194,9 +213,9 @@ func checkC07(raw json.RawMessage) iso.Result {
 		if want.Unspec {
 			continue
 		}
-		v, err := readVar(r.ip, name)
+		v, err := readVar(r.ip, c.onObj(name))
 		if err != nil {
-			col.Failf("cannot read %s after the run: %v", name, err)
+			col.Failf("cannot read %s after the run: %v", c.onObj(name), err)
 			continue
 		}
 		g, err := toRef(v)
@@ -205,7 +224,7 @@ func checkC07(raw json.RawMessage) iso.Result {
 			continue
 		}
 		if !sameVal(want, g) {
-			col.FailKey(c07Key(c, env, "value"), "final value of %s: reference %s, falco %s\n--- program ---\n%s", name, want, g, c.Src)
+			col.FailKey(c07Key(c, env, "value"), "final value of %s: reference %s, falco %s\n--- program ---\n%s", c.onObj(name), want, g, c.Src)
 		}
 	}
 	if env.MixedNumeric > 0 {
